@@ -32,6 +32,16 @@ class C:
         for i in range(len(self.L)):
             self.s = self.z[i] - z_old[i]
         self.r = self.x - x_old
+        w_old = list(self.w)
+        for i in range(len(self.L)):
+            backend.copyto(self.w[i], self.prox(self.L[i] @ self.x))
+        for i in range(len(self.L)):
+            self.t = self.w[i] - w_old[i]
+        v_old = list(self.v)
+        for i in range(len(self.L)):
+            self.v[i] = self.prox(self.L[i] @ self.x)
+        for i in range(len(self.L)):
+            self.q = self.v[i] - v_old[i]
 """
 
 ALG = "sigpy.alg.Alg"
@@ -141,7 +151,7 @@ def check(run, M, tier):
             hits = ZeroDiff(f).run()
             for node, text, attr, bind in hits:
                 run.bad("T3z", f.qual, f.loc(node), "%s computes `%s`, which is zero for every input: both operands are the object held in self.%s "
-                        "(`%s` binds it without a copy and self.%s is only updated in place afterwards), so a stopping test built on it never "
+                        "(`%s` does not copy the data and self.%s is only updated in place afterwards), so a stopping test built on it never "
                         "sees that part of the state move" % (f.qual, text, attr, unparse(bind) if bind is not None else "?", attr), stmt=node)
             if not hits:
                 run.ok("T3z", f.qual, "no difference of two names for the same storage", f.loc())
@@ -153,6 +163,8 @@ def check(run, M, tier):
     got = [t for _, t, _, _ in ZeroDiff(_F).run()]
     run.control("T3z", "z_old = self.z; self.z[i] = ...; self.z[i] - z_old[i]", True, "self.z[i] - z_old[i]" in got)
     run.control("T3z", "x_old = self.x; self.x = step(self.x); self.x - x_old", False, "self.x - x_old" in got)
+    run.control("T3z", "w_old = list(self.w); copyto(self.w[i], ..); self.w[i] - w_old[i]", True, "self.w[i] - w_old[i]" in got)
+    run.control("T3z", "v_old = list(self.v); self.v[i] = ..; self.v[i] - v_old[i]", False, "self.v[i] - v_old[i]" in got)
 
     # ---------------------------------------------------------------- T4
     _t4(run, M)
